@@ -788,8 +788,22 @@ func runProgram(f *c07family, prog []int, d *document.Document, m *model, v0 int
 			return fmt.Sprintf("step %d (%s): Root() %s != Marshal() %s", step, t.name, a, b), true
 		}
 	}
+	if applied {
+		// the same reads on a working copy rebuilt from the authoritative root
+		// (a rejected update discards the copy; the next read deep-copies the
+		// root): what deleted content left behind must not show up there either
+		_ = d.Update(func(r *yjson.Object, p *document.Presence) error { return errC07Reject })
+		if diff := f.cmp(m, d); diff != "" {
+			return fmt.Sprintf("step %d (%s), after the working copy was rebuilt: %s", len(prog)-1, f.tm[prog[len(prog)-1]].name, diff), true
+		}
+		if a, b := d.Root().Marshal(), d.Marshal(); a != b {
+			return fmt.Sprintf("step %d (%s), after the working copy was rebuilt: Root() %s != Marshal() %s", len(prog)-1, f.tm[prog[len(prog)-1]].name, a, b), true
+		}
+	}
 	return "", applied
 }
+
+var errC07Reject = fmt.Errorf("c07: rejected on purpose")
 
 func c07Run(env *Env) *Result {
 	res := NewResult()
